@@ -46,17 +46,11 @@ finding(["C02","C13"], "S5", "AP.S~Shape.S",
         "LEN = ((END - START) / STEP) ; if ((((END - START) % STEP) > 0) && (I > 0)) { LEN = (LEN + 1) } ; if (0 >= LEN) { LEN = 1 } | LEN = (END - START) <> LEN = ((END - START) / STEP) ; if (0 >= LEN) { LEN = 1 } | LEN = (END - START)", 3)
 
 # ---- engine O (ownership) ---------------------------------------------------------------------
-for key, sig in [("tensor.(*Dense).TensorMul(axesA)", "mutates element store at"), ("tensor.(*Dense).TensorMul(axesB)", "mutates element store at"),
-                 ("tensor.Contract(aAxes)", "mutates via TensorMul: element store at"), ("tensor.Contract(bAxes)", "mutates via TensorMul: element store at")]:
-    finding(["C19","C09"], "O3", key, "TensorMul normalises negative axes in place in the caller's axesA/axesB slices (axesA[i] += td)", sig, 11)
 finding(["C19","C13","C03","C08","C04","C09"], "O8", "tensor.(*Dense).ShallowClone#store1",
         "ShallowClone shares old (and transposeWith) with the source: s := a.ShallowClone(); s.UT(); a.UT() puts one slice in the pool twice",
         "alias stored into another object", 33)
 
 # ---- engine T (lazy-transpose typestate) ------------------------------------------------------
-finding(["C03","C19","C20"], "T2", "tensor.reuseCheckShape#reuse",
-        "reuseCheckShape zeroes a reuse tensor's old AP and returns its transposeAxes() to the ints pool without clearing the field: the tensor keeps a recycled axes slice",
-        "old cleared, transposeWith kept", 12)
 
 # ---- engine P (global state) -------------------------------------------------------------------
 finding(["C18"], "P4", "tensor.allTypes",
@@ -108,6 +102,8 @@ finding(["C16"], "L3", "tensor.Copy@copyDense(%dt, %ts) ⊨ %ts.DataOrder().HasS
 finding(["C16"], "L4", "tensor.ToMat64@mat.NewDense( ?$t.DataOrder().IsColMajor()", "ToMat64 hands column-major storage to the row-major mat.Dense", "without a test of $t.DataOrder().IsColMajor()", 18)
 
 FIXED = [
+ {"property":"C19","commit":"6e5ad4a","rule":"T2","key":"tensor.reuseCheckShape#reuse","what":"fixed: property=C19 6e5ad4a reuseCheckShape returned a reuse tensor's transposeWith slice to the ints pool and left the field pointing at it: the slice was returned a second time by ReturnTensor/UT (DESIGN finding 12)"},
+ {"property":"C19","commit":"f9f7dff","rule":"O3","key":"tensor.(*Dense).TensorMul(axesA), tensor.(*Dense).TensorMul(axesB), tensor.Contract(aAxes), tensor.Contract(bAxes)","what":"fixed: property=C19 f9f7dff TensorMul normalised negative axes in place in the caller's slices (and only after indexing the shape with them, so a negative axis panicked): axes are now resolved on copies before use (DESIGN finding 11)"},
  {"property":"C09","commit":"51ec201","rule":"L1","key":"tensor.(StdEng).checkThreeFloatComplexTensors@return  ⊨ contiguous operands; tensor.(StdEng).checkTwoFloatComplexTensors","what":"fixed: property=C09 51ec201 the BLAS gateways multiplied the raw window of a non-contiguous view: a[0:2,0:2] x I returned [0 1 2 3] (the first four window elements); the shared operand checks now refuse views with gaps (DESIGN finding 15)"},
  {"property":"C04","commit":"03c38a0","rule":"L1","key":"tensor.(*Dense).Transpose@%transposer.Transpose($r, ⊨ (!$r.old.IsZero() && !(!($r.viewOf == 0) && $r.o.IsNotContiguous()))","what":"fixed: property=C04 03c38a0 Dense.Transpose materialised the lazy transpose of a non-contiguous view in place, over the first Size() positions of the view's window: v := a(3,4)[:, 1:3]; v.T(); v.Transpose() overwrote 5 parent elements outside the view; it now refuses such a view (DESIGN finding 5)"},
  {"property":"C20","commit":"eb67722","rule":"B2","key":"tensor.(StdEng).transposeMask","what":"fixed: property=C20 eb67722 under -tags inplacetranspose transposeMask handled rank 2 only and left every other tensor's mask in place while the data moved: a masked (2,3,4) tensor after T(1,2,0); Transpose() had 10 mask bits on the wrong elements (the copying build is right) (DESIGN finding 29)"},
